@@ -20,7 +20,8 @@ RULE = ("Hypothesis draws a receiver (list / map / tuple / string / iterator cha
         "python models (list/dict/tuple/str by code point, generator-style adaptors with the tree's size hints) on debug "
         "and release workers, every 8th case under collect-at-every-allocation. Non-trivial: >= 3 operations including "
         ">= 1 boundary or error outcome, or a chain of >= 2 adaptors with >= 1 element flowing; distinct by program text.")
-ASSUMPTIONS = ["behaviour classes taken as documented: negative index get/set/slice, out of range -> IndexError, fractional "
+ASSUMPTIONS = ["a loop over a map visits the entries that were present when it began, whatever the body does to the map (the behaviour repair 7cd1e01 defines; the property itself is silent about maps changed while iterated)",
+               "behaviour classes taken as documented: negative index get/set/slice, out of range -> IndexError, fractional "
                "index on []/slice -> IndexError, remove/insert negative -> IndexError, pop on empty -> nil, missing key [] "
                "-> KeyError / get -> nil, wrong kinds -> signature RuntimeError",
                "not generated (unspecified): fractional index to remove/insert, negative/fractional take/skip counts, sort "
@@ -33,7 +34,7 @@ TECHNIQUE = "property-based testing (Hypothesis): stateful model-based oracle ov
 
 
 def cases(tier):
-    return 3200 if tier == "quick" else 600000
+    return 3200 if tier == "quick" else 300000
 
 
 def strategy(hazards):
